@@ -6,7 +6,6 @@ use std::{
     fs::File,
     hash::{Hash, Hasher},
     io::Write,
-    iter::repeat,
     net::SocketAddr,
 };
 
@@ -2131,22 +2130,22 @@ impl ConfigState {
         }
 
         //pub certificates:    HashMap<SocketAddr, HashMap<CertificateFingerprint, (CertificateAndKey, Vec<String>)>>,
-        let my_certificates: HashSet<(SocketAddr, &Fingerprint)> = HashSet::from_iter(
-            self.certificates
-                .iter()
-                .flat_map(|(addr, certs)| repeat(*addr).zip(certs.keys())),
-        );
-        let their_certificates: HashSet<(SocketAddr, &Fingerprint)> = HashSet::from_iter(
-            other
-                .certificates
-                .iter()
-                .flat_map(|(addr, certs)| repeat(*addr).zip(certs.keys())),
-        );
+        // A certificate is identified by (address, fingerprint) but its stored
+        // value (names, chain, key, versions) is part of the configuration: a
+        // changed value is a removal followed by an addition.
+        let my_certificates: HashSet<(SocketAddr, &Fingerprint, &CertificateAndKey)> =
+            HashSet::from_iter(self.certificates.iter().flat_map(|(addr, certs)| {
+                certs.iter().map(move |(fingerprint, cert)| (*addr, fingerprint, cert))
+            }));
+        let their_certificates: HashSet<(SocketAddr, &Fingerprint, &CertificateAndKey)> =
+            HashSet::from_iter(other.certificates.iter().flat_map(|(addr, certs)| {
+                certs.iter().map(move |(fingerprint, cert)| (*addr, fingerprint, cert))
+            }));
 
         let removed_certificates = my_certificates.difference(&their_certificates);
         let added_certificates = their_certificates.difference(&my_certificates);
 
-        for &(address, fingerprint) in removed_certificates {
+        for &(address, fingerprint, _) in removed_certificates {
             v.push(
                 RequestType::RemoveCertificate(RemoveCertificate {
                     address: SocketAddress::from(address),
@@ -2156,21 +2155,15 @@ impl ConfigState {
             );
         }
 
-        for &(address, fingerprint) in added_certificates {
-            if let Some(certificate_and_key) = other
-                .certificates
-                .get(&address)
-                .and_then(|certs| certs.get(fingerprint))
-            {
-                v.push(
-                    RequestType::AddCertificate(AddCertificate {
-                        address: SocketAddress::from(address),
-                        certificate: certificate_and_key.clone(),
-                        expired_at: None,
-                    })
-                    .into(),
-                );
-            }
+        for &(address, _, certificate_and_key) in added_certificates {
+            v.push(
+                RequestType::AddCertificate(AddCertificate {
+                    address: SocketAddress::from(address),
+                    certificate: certificate_and_key.clone(),
+                    expired_at: None,
+                })
+                .into(),
+            );
         }
 
         for address in added_tcp_listeners {
